@@ -1,6 +1,6 @@
 (* C09 - data orders are drawn uniformly from those compatible with the tree; the reported density is
    1 / (number of such orders).  Statements only; proofs live in Proofs/Perm*.v. *)
-From PV Require Import Model.Perm Proofs.PermProofs Proofs.PermSound.
+From PV Require Import Model.Perm Proofs.PermProofs Proofs.PermSound Proofs.PermComplete.
 From Coq Require Import Permutation.
 
 (* the sampler's law is the uniform law on the enumerated list of orders, for every tree / forest *)
@@ -18,6 +18,12 @@ Print Assumptions C09_sampler_total_mass.
 Theorem C09_orders_sound : forall F o, In o (forders F) -> Permutation (fpoints F) o /\ frespects o F.
 Proof. exact forders_sound. Qed.
 Print Assumptions C09_orders_sound.
+
+(* ... and every such permutation is enumerated: the sampler can produce every compatible order *)
+Theorem C09_orders_complete : forall F o,
+  NoDup (fpoints F) -> Permutation (fpoints F) o -> frespects o F -> In o (forders F).
+Proof. exact forders_complete. Qed.
+Print Assumptions C09_orders_complete.
 
 (* the density (fixed code): count = number of enumerated orders *)
 Theorem C09_density_is_inverse_count : forall F, fcount F = qn (length (forders F)).
